@@ -1,7 +1,411 @@
-//! C01 — not built yet (stub keeps the registry stable while modules are written in parallel).
+//! C01 — VM and WASM backends produce identical audio for every program.
 
-use crate::engine::case::Prop;
+use crate::engine::case::*;
+use crate::engine::rng::hash64;
+use crate::engine::shrink::text_candidates;
+use crate::engine::tape::Gen;
+use crate::gens::prog::{self, Layout, PCfg, PG};
+use crate::gens::textgen as tg;
+use crate::runners::exec::{self, canon, Exec, Inputs, RunOpts};
+use serde_json::{json, Value};
+
+pub struct C01;
 
 pub fn prop() -> Option<&'static dyn Prop> {
-    None
+    Some(&C01)
+}
+
+// known-finding exclusion switches (ids in /verif/known_findings.json)
+pub const KF_IF_STATE: &str = "C01-state-in-if-arms";
+pub const KF_MULTI_DELAY: &str = "C01-multi-delay-size";
+pub const KF_NAN_COND: &str = "C01-nan-condition";
+pub const KF_DELAY_TIME: &str = "C01-delay-time-out-of-range";
+pub const KF_TUPLE_INPUT: &str = "C01-wasm-tuple-input";
+pub const KF_UNRESOLVED_SELF: &str = "C03-unresolved-self-type";
+pub const KF_MODULO: &str = "C01-modulo-differs";
+pub const KF_SELF_IN_TUPLE: &str = "C01-wasm-self-in-tuple";
+pub const KF_MAKER_INSTANCES: &str = "C01-wasm-maker-instances";
+pub const KF_TUPLE_IF: &str = "C01-wasm-tuple-if";
+pub const KF_DEFAULT_ARGS: &str = "C01-wasm-default-args";
+pub const KF_GLOBAL_TUPLE: &str = "C01-wasm-global-tuple-in-stateful-fn";
+pub const KF_BLOCK_OPERAND: &str = "C01-wasm-block-operand";
+pub const KF_PROJ_COND: &str = "C01-wasm-proj-in-cond-and-arm";
+pub const KF_CAPTURE_DESTRUCTURED: &str = "C01-wasm-closure-captures-destructured";
+
+pub fn pcfg(cx: &Cx) -> (PCfg, Vec<&'static str>) {
+    let mut c = PCfg::default();
+    let mut off = vec![];
+    if cx.excluded(KF_IF_STATE) {
+        c.state_in_branches = false;
+        off.push(KF_IF_STATE);
+    }
+    if cx.excluded(KF_MULTI_DELAY) {
+        c.multi_delay_per_fn = false;
+        off.push(KF_MULTI_DELAY);
+    }
+    if cx.excluded(KF_NAN_COND) {
+        c.raw_conditions = false;
+        off.push(KF_NAN_COND);
+    }
+    if cx.excluded(KF_TUPLE_INPUT) {
+        c.tuple_inputs = false;
+        off.push(KF_TUPLE_INPUT);
+    }
+    if cx.excluded(KF_MODULO) {
+        c.modulo = false;
+        off.push(KF_MODULO);
+    }
+    if cx.excluded(KF_SELF_IN_TUPLE) {
+        c.self_in_tuple = false;
+        off.push(KF_SELF_IN_TUPLE);
+    }
+    if cx.excluded(KF_MAKER_INSTANCES) {
+        c.multi_maker_instances = false;
+        off.push(KF_MAKER_INSTANCES);
+    }
+    if cx.excluded(KF_TUPLE_IF) {
+        c.tuple_if = false;
+        off.push(KF_TUPLE_IF);
+    }
+    if cx.excluded(KF_GLOBAL_TUPLE) {
+        c.tuple_globals = false;
+        off.push(KF_GLOBAL_TUPLE);
+    }
+    if cx.excluded(KF_BLOCK_OPERAND) {
+        c.block_operands = false;
+        off.push(KF_BLOCK_OPERAND);
+    }
+    if cx.excluded(KF_PROJ_COND) {
+        c.proj_in_cond = false;
+        off.push(KF_PROJ_COND);
+    }
+    if cx.excluded(KF_CAPTURE_DESTRUCTURED) {
+        c.capture_destructured = false;
+        off.push(KF_CAPTURE_DESTRUCTURED);
+    }
+    if cx.excluded(KF_UNRESOLVED_SELF) {
+        c.unannotated_self = false;
+        off.push(KF_UNRESOLVED_SELF);
+    }
+    (c, off)
+}
+
+pub struct Cmp {
+    pub fail: Option<(String, String)>,
+    pub compiled: bool,
+    pub samples: usize,
+    pub n_out: u32,
+    pub varying: bool,
+    pub reject_reason: Option<String>,
+    pub discard: Option<String>,
+}
+
+/// The differential oracle on one source text.
+pub fn compare(src: &str, inputs: &Inputs, n: u64, sched: bool, cmp_state: bool) -> Cmp {
+    let mut c = Cmp { fail: None, compiled: false, samples: 0, n_out: 0, varying: false, reject_reason: None, discard: None };
+    let o = RunOpts { n, sched, want_state: true, want_counts: false };
+    let vm = exec::run_vm(src, inputs, &o);
+    let wa = exec::run_wasm(src, inputs, &o);
+    macro_rules! fail {
+        ($sig:expr, $($arg:tt)*) => {{ c.fail = Some((format!("c01:{}", $sig), format!($($arg)*))); return c; }};
+    }
+    match (&vm, &wa) {
+        (Exec::Rejected(d), Exec::Rejected(_)) => {
+            c.reject_reason = d.first().map(|x| crate::engine::panics::normalise(&x.message));
+            return c;
+        }
+        (Exec::NoIo, Exec::NoIo) => return c,
+        (Exec::Rejected(d), other) => fail!("accept-mismatch:vm-rejects", "VM backend rejects ({}) but WASM answers {}", d.first().map(|x| x.message.clone()).unwrap_or_default(), kind(other)),
+        (other, Exec::Rejected(d)) => fail!("accept-mismatch:wasm-rejects", "WASM backend rejects ({}) but VM answers {}", d.first().map(|x| x.message.clone()).unwrap_or_default(), kind(other)),
+        // documented runtime preconditions (a task scheduled at or before the current sample, a
+        // builtin applied to an empty array): outside the property's domain
+        (Exec::Panic(_, p), _) | (_, Exec::Panic(_, p)) if p.msg.contains("must be in the future") || p.msg.contains("on empty array") => {
+            c.discard = Some("runtime-precondition".into());
+            return c;
+        }
+        (Exec::Panic(stage, p), _) => fail!(format!("vm-{}:{}", stage_kind(stage), p.signature()), "VM {stage}: {}", p.describe()),
+        (_, Exec::Panic(stage, p)) => fail!(format!("wasm-{}:{}", stage_kind(stage), p.signature()), "WASM {stage}: {}", p.describe()),
+        (_, Exec::Error(stage, e)) => fail!(format!("wasm-error:{stage}:{}", crate::engine::panics::normalise(e)), "WASM {stage} failed: {e}"),
+        (Exec::Error(stage, e), _) => fail!(format!("vm-error:{stage}"), "VM {stage} failed: {e}"),
+        (Exec::NoIo, _) | (_, Exec::NoIo) => fail!("io-mismatch", "one backend reports no dsp I/O information: vm={} wasm={}", kind(&vm), kind(&wa)),
+        (Exec::Ran(a), Exec::Ran(b)) => {
+            c.compiled = true;
+            c.n_out = a.n_out;
+            if (a.n_in, a.n_out) != (b.n_in, b.n_out) {
+                fail!("channel-count", "I/O channels differ: vm {}/{} wasm {}/{}", a.n_in, a.n_out, b.n_in, b.n_out);
+            }
+            if !b.bad_rc.is_empty() {
+                fail!("wasm-trap", "WASM run_dsp returned {} at sample {} (VM ran)", b.bad_rc[0].1, b.bad_rc[0].0);
+            }
+            c.samples = a.samples.len();
+            for (t, (x, y)) in a.samples.iter().zip(b.samples.iter()).enumerate() {
+                if x.len() != y.len() {
+                    fail!("output-width", "sample {t}: vm yields {} words, wasm {}", x.len(), y.len());
+                }
+                if x.len() != a.n_out as usize {
+                    fail!("output-width", "sample {t}: {} words for {} declared channels", x.len(), a.n_out);
+                }
+                for ch in 0..x.len() {
+                    if canon(x[ch]) != canon(y[ch]) {
+                        fail!("sample-mismatch", "sample {t} channel {ch}: vm {:?} ({:#x}) wasm {:?} ({:#x})", f64::from_bits(x[ch]), x[ch], f64::from_bits(y[ch]), y[ch]);
+                    }
+                }
+                if t > 0 && a.samples[t] != a.samples[0] {
+                    c.varying = true;
+                }
+            }
+            // state words (hook H1): WASM words zero-extended to the skeleton size
+            if cmp_state && !a.state.is_empty() && a.state.len() == b.state.len() {
+                let size = a.skeleton_words.unwrap_or(0) as usize;
+                for (t, (x, y)) in a.state.iter().zip(b.state.iter()).enumerate() {
+                    if y.len() > size.max(x.len()) {
+                        fail!("state-size", "sample {t}: WASM state has {} words, skeleton {} (VM {})", y.len(), size, x.len());
+                    }
+                    for i in 0..x.len().max(y.len()) {
+                        let xv = x.get(i).copied().unwrap_or(0);
+                        let yv = y.get(i).copied().unwrap_or(0);
+                        if canon(xv) != canon(yv) {
+                            fail!("state-mismatch", "after sample {t}: state word {i} vm {:#x} wasm {:#x}", xv, yv);
+                        }
+                    }
+                }
+            }
+        }
+    }
+    c
+}
+
+fn kind(e: &Exec) -> &'static str {
+    match e {
+        Exec::Rejected(_) => "rejected",
+        Exec::NoIo => "no-io",
+        Exec::Ran(_) => "ran",
+        Exec::Panic(..) => "panic",
+        Exec::Error(..) => "error",
+    }
+}
+fn stage_kind(s: &str) -> &str {
+    if s.starts_with("dsp@") { "dsp-panic" } else if s == "compile" { "compile-panic" } else { "panic" }
+}
+
+pub fn gen_inputs(g: &mut Gen) -> Inputs {
+    let kind = g.weighted(&[3, 4, 2, 2, 1, 1, 1]) as u8;
+    let scale = *g.pick(&[1.0, 0.5, 2.0, 0.1, 100.0, 0.001]);
+    Inputs { kind, scale }
+}
+
+fn finish(src: &str, inputs: &Inputs, n: u64, sched: bool, classes: Vec<String>, stateful: bool, cx: &Cx, mode: &str) -> CaseResult {
+    let key = format!("{src}\u{1}{}\u{1}{n}\u{1}{sched}", inputs.describe());
+    let hash = hash64(key.as_bytes());
+    let direct = json!({"text": src, "input_kind": inputs.kind, "input_scale": inputs.scale, "n": n, "sched": sched, "state": mode == "gen" || mode == "direct-gen"});
+    if cx.dry {
+        let mut r = CaseResult::discard("dry");
+        r.render = Some(direct.clone());
+        r.direct = Some(direct);
+        return r;
+    }
+    // state words are compared for generated programs (numeric state only); shipped sources may keep
+    // array/closure handles in state cells, which are runtime-specific identifiers
+    let c = compare(src, inputs, n, sched, false);
+    if let Some(w) = &c.discard {
+        return CaseResult::discard(w.clone());
+    }
+    // a crash of one backend on a *mutated* shipped source is not judged here (the mutation may
+    // have made the program erroneous at run time); mismatches between two runs still are
+    if mode == "corpus-mutant" {
+        if let Some((s, _)) = &c.fail {
+            if s.contains("panic") {
+                return CaseResult::discard("mutant-crash");
+            }
+        }
+    }
+    let mut r = match &c.fail {
+        Some((s, m)) => CaseResult::fail(hash, s.clone(), m.clone()),
+        None => CaseResult::held(hash),
+    };
+    r.classes = classes;
+    r.classes.push(format!("mode:{mode}"));
+    if !c.compiled && c.fail.is_none() {
+        r.classes.push("rejected-by-both".into());
+        if let Some(w) = &c.reject_reason {
+            r.count(&format!("reject:{w}"), 1);
+        }
+    }
+    if c.compiled {
+        r.classes.push("compiled".into());
+        if c.varying {
+            r.classes.push("output-varies".into());
+        }
+        if c.n_out >= 2 {
+            r.classes.push("multi-out".into());
+        }
+    }
+    let featureful = stateful || r.classes.iter().any(|c| c.starts_with("f:"));
+    r.nontrivial = c.compiled && c.samples >= 2 && (featureful || c.n_out >= 2) || r.is_fail();
+    if cx.render || r.is_fail() {
+        r.render = Some(json!({"text": src, "inputs": inputs.describe(), "n": n, "sched": sched}));
+    }
+    r.direct = Some(direct);
+    r
+}
+
+impl Prop for C01 {
+    fn id(&self) -> &'static str {
+        "C01"
+    }
+    fn spaces(&self, tier: Tier) -> Vec<Space> {
+        match tier {
+            Tier::Quick => vec![
+                Space { name: "gen", size: 3000, exhaustive: false, chunk: 60, case_timeout_s: 60.0, what: "generated typed core-language programs x input streams x run lengths" },
+                Space { name: "corpus", size: 500, exhaustive: false, chunk: 20, case_timeout_s: 60.0, what: "shipped sources and literal/operator mutants of them" },
+            ],
+            Tier::Thorough => vec![
+                Space { name: "gen", size: 120_000, exhaustive: false, chunk: 200, case_timeout_s: 60.0, what: "generated typed core-language programs x input streams x run lengths" },
+                Space { name: "corpus", size: 20_000, exhaustive: false, chunk: 50, case_timeout_s: 60.0, what: "shipped sources and literal/operator mutants of them" },
+            ],
+        }
+    }
+    fn run(&self, space: &str, _index: u64, g: &mut Gen, cx: &Cx) -> CaseResult {
+        match space {
+            "gen" => {
+                let (cfg, off) = pcfg(cx);
+                let mut pg = PG::new(g, cfg);
+                let p = pg.program();
+                let feat = pg.feat.clone();
+                let src = prog::render(&p, &Layout::default());
+                let inputs = gen_inputs(g);
+                let n = *g.pick(&[8u64, 4, 16, 3, 32, 64]);
+                let mut classes = feat.classes();
+                let mut r = finish(&src, &inputs, n, false, std::mem::take(&mut classes), feat.stateful(), cx, "gen");
+                for id in off {
+                    r.count(&format!("generator_switch_off:{id}"), 1);
+                }
+                r
+            }
+            _ => {
+                let (src, m) = corpus_case(g, cx.excluded(KF_DEFAULT_ARGS));
+                let inputs = gen_inputs(g);
+                let n = *g.pick(&[8u64, 4, 16, 24]);
+                let sched = src.contains('@') || src.contains("_mimium_schedule_at");
+                finish(&src, &inputs, n, sched, vec![format!("mut:{m}"), "mode:corpus".to_string()], true, cx, if m == "none" { "corpus" } else { "corpus-mutant" })
+            }
+        }
+    }
+    fn run_direct(&self, input: &Value, cx: &Cx) -> Option<CaseResult> {
+        let t = input.get("text")?.as_str()?;
+        let inputs = Inputs { kind: input.get("input_kind").and_then(|v| v.as_u64()).unwrap_or(1) as u8, scale: input.get("input_scale").and_then(|v| v.as_f64()).unwrap_or(1.0) };
+        let n = input.get("n").and_then(|v| v.as_u64()).unwrap_or(8);
+        let sched = input.get("sched").and_then(|v| v.as_bool()).unwrap_or(false);
+        let st = input.get("state").and_then(|v| v.as_bool()).unwrap_or(false);
+        Some(finish(t, &inputs, n, sched, vec![], true, cx, if st { "direct-gen" } else { "direct" }))
+    }
+    fn shrink_direct(&self, input: &Value) -> Vec<Value> {
+        let Some(t) = input.get("text").and_then(|v| v.as_str()) else { return vec![] };
+        let mut out = vec![];
+        let n = input.get("n").and_then(|v| v.as_u64()).unwrap_or(8);
+        for m in [n / 2, n - 1] {
+            if m >= 1 && m < n {
+                let mut v = input.clone();
+                v["n"] = json!(m);
+                out.push(v);
+            }
+        }
+        for s in line_candidates(t).into_iter().chain(text_candidates(t)) {
+            let mut v = input.clone();
+            v["text"] = json!(s);
+            out.push(v);
+        }
+        out
+    }
+    fn rule(&self) -> String {
+        "Cases are (program, input stream, run length). Programs: type-directed generation over the core language (arithmetic/comparison/logic, builtins, let with tuple/record patterns, if, blocks, named functions with 0-3 parameters, lambdas, local closures, counter-maker closures bound at global scope, higher-order functions, pipes, self (scalar and tuple), mem, delay, now, samplerate, globals, dsp with 0-3 inputs and 1-4 outputs), plus shipped sources with literal/operator mutations. Oracle: accept/reject agree; channel counts agree; every output word of every sample bitwise equal (NaN = NaN); WASM run_dsp return code 0; (state words are compared by C05). Non-trivial = compiled on both backends, >= 2 samples and a stateful/closure/tuple/branch feature or >= 2 output channels; distinct by source+inputs+length.".into()
+    }
+    fn assumptions(&self) -> Vec<String> {
+        vec![
+            "both runtimes are driven through DspRuntime::{set_input, run_dsp, get_output} with the sample counter advanced by the harness".into(),
+            "generator switches that are off because of recorded findings are listed in counters.generator_switch_off".into(),
+        ]
+    }
+    fn required_classes(&self, _tier: Tier) -> Vec<&'static str> {
+        vec!["compiled", "output-varies", "multi-out", "f:self", "f:mem", "f:delay", "f:stateful-call", "f:nested-stateful", "f:maker-closure", "f:local-closure", "f:hof", "f:tuple", "f:record", "f:branch", "mode:corpus"]
+    }
+}
+
+/// whole-line deletions first: programs shrink much faster by statements than by characters
+pub fn line_candidates(t: &str) -> Vec<String> {
+    let lines: Vec<&str> = t.lines().collect();
+    let mut out = vec![];
+    let n = lines.len();
+    let mut k = n / 2;
+    while k >= 1 {
+        let mut pos = 0;
+        while pos + k <= n {
+            let mut l = lines.clone();
+            l.drain(pos..pos + k);
+            out.push(l.join("\n"));
+            pos += k;
+        }
+        if k == 1 {
+            break;
+        }
+        k /= 2;
+    }
+    out
+}
+
+/// corpus program, possibly with a literal / operator mutation (kept whatever it does: the oracle
+/// only compares the two backends, an uncompilable mutant is a reject/reject case)
+pub fn corpus_case(g: &mut Gen, no_default_args: bool) -> (String, &'static str) {
+    let c = tg::corpus();
+    // skip programs that need audio files, MIDI or GUI plugins
+    let usable: Vec<&(String, String)> = c.iter().filter(|(p, s)| !s.contains("Sampler") && !s.contains("midi") && !s.contains("Slider") && !s.contains("Probe") && !s.contains("gen_sampler") && !p.contains("/examples/") && !["fail", "invalid", "error"].iter().any(|w| p.rsplit('/').next().unwrap_or("").contains(w)) && !(no_default_args && s.contains(".."))).collect();
+    if usable.is_empty() {
+        return ("fn dsp(){ 0.0 }".into(), "none");
+    }
+    let (_, src) = usable[g.usize_below(usable.len())];
+    match g.weighted(&[3, 3, 2]) {
+        0 => (src.clone(), "none"),
+        1 => {
+            // replace one numeric literal by another
+            let bytes = src.as_bytes();
+            let mut lits = vec![];
+            let mut i = 0;
+            while i < bytes.len() {
+                if bytes[i].is_ascii_digit() && (i == 0 || !(bytes[i - 1].is_ascii_alphanumeric() || bytes[i - 1] == b'_' || bytes[i - 1] == b'.')) {
+                    let s = i;
+                    while i < bytes.len() && (bytes[i].is_ascii_digit() || bytes[i] == b'.') {
+                        i += 1;
+                    }
+                    if src[s..i].contains('.') && !src[s..i].ends_with('.') {
+                        lits.push((s, i));
+                    }
+                } else {
+                    i += 1;
+                }
+            }
+            if lits.is_empty() {
+                return (src.clone(), "none");
+            }
+            let (s, e) = lits[g.usize_below(lits.len())];
+            let rep = *g.pick(&["0.0", "1.0", "2.0", "0.5", "3.0", "10.0", "0.25"]);
+            (format!("{}{}{}", &src[..s], rep, &src[e..]), "literal")
+        }
+        _ => {
+            let ops = [" + ", " - ", " * ", " / ", " > ", " < "];
+            let mut sites = vec![];
+            for op in ops {
+                let mut from = 0;
+                while let Some(p) = src[from..].find(op) {
+                    sites.push((from + p, op.len()));
+                    from += p + op.len();
+                }
+            }
+            if sites.is_empty() {
+                return (src.clone(), "none");
+            }
+            let (s, l) = sites[g.usize_below(sites.len())];
+            let rep = *g.pick(&ops);
+            (format!("{}{}{}", &src[..s], rep, &src[s + l..]), "operator")
+        }
+    }
 }
